@@ -52,8 +52,8 @@ func zzCheckGroups(direct *batchCommandsRequestGroup, fwd map[string]*batchComma
 		for i := 0; i < n && i < len(g.req.RequestIds) && i < len(g.req.Requests); i++ {
 			e := g.entries[i]
 			wellformed = wellformed && byID[g.req.RequestIds[i]] == e // RequestIds[i] <-> entries[i]
-			wellformed = wellformed && g.req.Requests[i] == e.req   // Requests[i] is that entry's request
-			wellformed = wellformed && e.forwardedHost == host      // grouped under its own host
+			wellformed = wellformed && g.req.Requests[i] == e.req     // Requests[i] is that entry's request
+			wellformed = wellformed && e.forwardedHost == host        // grouped under its own host
 			wellformed = wellformed && !e.isCanceled()
 		}
 	}
